@@ -10,7 +10,8 @@ LONGS = ["alpha", "alp", "beta", "be", "gamma", "opt", "out", "o", "ab", "a-b", 
 SHORTS = "abcdovxSqzf"
 SUBS = ["sub", "su", "run", "ru", "test", "t", "add", "hx"]
 VALUES = [b"v", b"w", b"x1", b"", b"a,b", b"a,,b", b"1", b"-1", b"-x", b"--y", b"sub", b"run", b"help", b"=", b"v=w",
-          b"\xff", b"-", b"--", b"true", b"false", b"300", b"END", b"0", b"255", "é".encode()]
+          b"\xff", b"-", b"--", b"true", b"false", b"300", b"END", b"0", b"255", "é".encode(),
+          b"a,\xff", b"\xffb,c"]     # a declared delimiter next to bytes that are not UTF-8: splitting is byte-level
 SAFE_VALUES = [b"v", b"w", b"x1", b"a,b", b"1", b"v=w", b"true", b"0", b"zz", b"3"]
 
 
